@@ -63,12 +63,13 @@ type world struct {
 	socks    []*fudp
 	xorCalls []*xorCall
 	turns    []*fturn
+	hasChild map[int]bool
 	samePort bool // hand out identical ports for identical IPs (duplicate scenarios)
 	wildIP   net.IP
 }
 
 func newWorld() *world {
-	return &world{byConn: map[any]*res{}, busy: map[string]bool{}, prebusy: map[int]bool{}, nextPort: 40000}
+	return &world{byConn: map[any]*res{}, busy: map[string]bool{}, prebusy: map[int]bool{}, nextPort: 40000, hasChild: map[int]bool{}}
 }
 
 func (w *world) addRes(kind string, ip net.IP, port int, ufrag string, key any, parent int) *res {
@@ -616,7 +617,15 @@ func (w *world) newTurn(loc net.PacketConn) *fturn {
 	parent := 0
 	if r := w.byConn[loc]; r != nil {
 		parent = r.ID
+	} else {
+		// TURN over TCP: the client gets a wrapper around the dialled connection; take the latest connection without a client
+		for i := len(w.res) - 1; i >= 0 && parent == 0; i-- {
+			if w.res[i].Kind == "tcpdial" && !w.hasChild[w.res[i].ID] {
+				parent = w.res[i].ID
+			}
+		}
 	}
+	w.hasChild[parent] = true
 	t := &fturn{w: w, loc: loc, ans: make(chan *falloc, 1)}
 	ip, port := net.IPv4zero, 0
 	if ua, ok := loc.LocalAddr().(*net.UDPAddr); ok {
